@@ -11,14 +11,20 @@ import gen as G
 
 LEVEL = "proof"
 DRIVERS = ["driver_c12"]
-TRUSTED = ["model: coq/Model/Group.v (mk_group: key conversion / uniqueness / sort / union of supports / member restriction; select_keys, masks, getby_*, "
-           "g_restrict, g_get, merge_group, to_tsd, to_tsgroup, rate, step/trace) over Model/Iset.v, Restrict.v, Slice.v, Count.v, ValueFrom.v; theorems: Proofs/GroupProofs.v",
+TRUSTED = ["model: coq/Model/Group.v (mk_group: key conversion / uniqueness / sort / union of supports / member restriction; Ts constructor incl. the empty-series rule; "
+           "select_keys, masks, getby_*, g_restrict, g_get, merge_group (as repaired) and merge_group_orig, to_tsd, to_tsgroup, rate, step/trace) over Model/Iset.v, Restrict.v, "
+           "Slice.v, Count.v, ValueFrom.v; theorems: Proofs/GroupProofs.v (reusing RestrictProofs, UnionProofs, C02Top, C01Top, SliceProofs, CountProofs)",
            "metadata is one integer column 'tag' supplied as a DataFrame indexed by the sorted integer keys (attachment of metadata is C13's)",
-           "python's int()/float() on the supplied keys is abstracted as rawkey (int / numeric string / non-numeric / float with or without a fraction)"]
+           "python's int()/float() on the supplied keys is abstracted as rawkey (int / numeric string / rejected by int() / float with or without a fraction)",
+           "np.argsort in to_tsd is modelled as a stable sort; the round trip does not depend on the order of equal timestamps (proved: filter commutes with the sort)"]
 ASSUMPTIONS = ["members are built with >= 2 distinct timestamps or an explicit support (a single-timestamp series has an empty default support: known quirk)",
-               "the rate clause is checked for members whose own support is the group's (always the case unless the caller opts out of the check AND passes members that were not restricted beforehand)",
+               "the rate clause is stated and checked for members whose own support is the group's (always the case unless the caller opts out of the check AND passes members "
+               "that were not restricted beforehand: then rate = len / the member's own support duration, counted in the distribution)",
                "time supports compared by merge_group differ by 0 or by more than 1 ns (np.allclose with atol=1e-9 is float-ambiguous at exactly 1 ns)",
-               "two supports that touch are merged into intervals separated by the constructor's 1 us trim: membership of the union is checked for instants farther than 1 us from every endpoint"]
+               "two supports that touch are merged into intervals separated by the constructor's 1 us trim: for TWO members the union is proved/checked at instants farther than 1 us from "
+               "every endpoint (exact for >= 3 members, n-ary kernel)",
+               "observation kept out of the claim: merge_group(reset_time_support=False) accepts an empty support against a one-interval support (np.allclose broadcasts (0,2) with (1,2)); "
+               "modelled as is (sup_same) and counted in the distribution"]
 
 U = 1953125  # 2^-9 s in ticks
 
